@@ -338,7 +338,76 @@ def rule_sib(ctx) -> None:
                   "the gate-off fallback does not run plain sequential turns")
 
 
+COPY_CALLS = {"dict", "copy.copy", "copy.deepcopy", "deepcopy", "_copy.deepcopy", "_copy.copy", "json.loads", "OrderedDict"}
+
+
+def _is_snapshot(rd, e: ast.AST, at, depth: int = 0) -> bool:
+    """e is a copy taken now (dict(x), {**x}, deepcopy(x), a literal), not the caller's own object"""
+    if isinstance(e, (ast.Dict, ast.DictComp, ast.Constant)):
+        return True
+    if isinstance(e, ast.Call):
+        d = dotted(e.func) or ""
+        if d in COPY_CALLS or d.split(".")[-1] in ("deepcopy", "copy"):
+            return True
+        return False
+    if isinstance(e, ast.Name) and depth < 3:
+        ds = [d for d in rd.reaching(e.id, at) if d.kind != "mutate"]
+        return bool(ds) and all(d.kind == "assign" and d.value is not None and _is_snapshot(rd, d.value, d.node, depth + 1) for d in ds)
+    return False
+
+
+def rule_capture_snapshot(ctx) -> None:
+    """the sequential loop serialises a record the moment it is logged; the batch driver captures it in the per-turn buffer and
+    serialises at commit.  The two agree only if the capture holds the record as it was at the call: the buffered object is a
+    copy taken at capture time (at the call of the buffer's write, or inside it), never the caller's own dict - which the
+    compute phase is free to keep updating."""
+    LM = "clematis.engine.util.logmux"
+    lm = ctx.prog.module(LM)
+    # role: the buffer class = the class of logmux whose method appends (stream, obj) to a list held on self
+    writers = []
+    for f in lm.funcs.values():
+        if "." not in f.qual.split(":")[-1] or len(f.params) < 3:
+            continue
+        for x in walk_no_defs(f.node):
+            if isinstance(x, ast.Call) and call_tail(x) == "append" and isinstance(x.func.value, ast.Attribute) and src(x.func.value.value) == "self" and x.args and isinstance(x.args[0], ast.Tuple) \
+                    and len(x.args[0].elts) == 2:
+                writers.append((f, x))
+    ctx.floor("C10.STAGE", "capture-buffer write methods in logmux", len(writers), 1)
+    copies_inside = {}
+    for f, app in writers:
+        copies_inside[f.name] = _is_snapshot(ctx.rd(f), app.args[0].elts[1], (ctx.cfg(f).node_containing(app) or [None])[0])
+    n_sites = 0
+    for mn in ("clematis.io.log", LM):
+        for fn in ctx.prog.module(mn).funcs.values():
+            rd = None
+            for x in walk_no_defs(fn.node):
+                if not (isinstance(x, ast.Call) and isinstance(x.func, ast.Attribute) and x.func.attr in copies_inside and isinstance(x.func.value, ast.Name) and len(x.args) == 2):
+                    continue
+                rd = rd or ctx.rd(fn)
+                at = (ctx.cfg(fn).node_containing(x) or [None])[0]
+                if at is None:
+                    continue
+                # receiver obtained from the context variable holding the active buffer
+                rdefs = [d for d in rd.reaching(x.func.value.id, at) if d.kind == "assign" and d.value is not None]
+                if not any(isinstance(d.value, ast.Call) and call_tail(d.value) == "get" for d in rdefs):
+                    continue
+                n_sites += 1
+                callers = [g for g in ctx.prog.funcs.values() if g is not fn and any(isinstance(y, ast.Call) and (r := ctx.prog.callee(g, y)) and r[1] == fn.qual for y in walk_no_defs(g.node))]
+                ok = copies_inside[x.func.attr] or _is_snapshot(rd, x.args[1], at)
+                key = f"{fn.qual}/captured-record-is-a-snapshot"
+                if ok:
+                    ctx.holds("C10.STAGE", key, fn.loc(x), f"the record handed to the capture buffer is a copy taken at the call (`{src(x.args[1])[:40]}`)")
+                elif not callers and mn == LM:
+                    ctx.info("C10.STAGE", key, fn.loc(x), f"{fn.name} hands its argument to the buffer uncopied, but nothing in the program calls it")
+                else:
+                    ctx.violation("C10.STAGE", key, fn.loc(x),
+                                  f"`{src(x.args[1])[:40]}` - the caller's own dict - is stored in the per-turn capture buffer and serialised only at commit: an update made to that dict "
+                                  "later in the compute phase rewrites a line that the sequential loop has already written, so the batch driver's logs differ from the sequential ones")
+    ctx.floor("C10.STAGE", "capture sites (buffer.write on the active mux)", n_sites, 2)
+
+
 def run(ctx) -> None:
+    rule_capture_snapshot(ctx)
     rule_ro(ctx)
     rule_dry(ctx)
     rule_commit(ctx)
